@@ -17,6 +17,10 @@ package cpusuppress
 //                  obs = cpuset.cpus of besteffort dir, one pod dir, one container dir, each as
 //                  [len ids...] in file order (ranges expanded, nothing de-duplicated)
 //  kind 4 quota  : 4 budgetMilli capMilli curQuota                    obs = [cpu.cfs_quota_us]
+//  kind 5 history: 5 capMilli initQuota N (op arg)*N on ONE CPUSuppress instance (one executor, one cache):
+//                  op 1 quota round (adjustByCfsQuota(arg) + status "using", as suppressBECPU does), 2 recoverCFSQuotaIfNeed,
+//                  3 somebody else writes arg into cpu.cfs_quota_us, 4 cpuset round adjustByCPUSet(arg)
+//                  obs = cpu.cfs_quota_us after every step
 
 import (
 	"flag"
@@ -361,6 +365,48 @@ func vtC10Quota(d *vtC10Rd) []int64 {
 	return []int64{v}
 }
 
+// ---------------------------------------------------------------- kind 5: quota mode over a history
+
+func vtC10History(d *vtC10Rd) []int64 {
+	capM, init := d.next(), d.next()
+	n := int(d.next())
+	node := &corev1.Node{
+		ObjectMeta: metav1.ObjectMeta{Name: "n0"},
+		Status: corev1.NodeStatus{Capacity: corev1.ResourceList{corev1.ResourceCPU: *resource.NewMilliQuantity(capM, resource.DecimalSI)}},
+	}
+	helper := system.NewFileTestUtil(vtC10T)
+	defer helper.Cleanup()
+	beDir := koordletutil.GetPodQoSRelativePath(corev1.PodQOSBestEffort)
+	helper.WriteCgroupFileContents(beDir, system.CPUCFSQuota, strconv.FormatInt(init, 10))
+	helper.WriteCgroupFileContents(beDir, system.CPUSet, "0-3")
+	info := &metriccache.NodeCPUInfo{ProcessorInfos: []koordletutil.ProcessorInfo{
+		{CPUID: 0, CoreID: 0}, {CPUID: 1, CoreID: 0}, {CPUID: 2, CoreID: 1}, {CPUID: 3, CoreID: 1}}}
+	topo := &topov1alpha1.NodeResourceTopology{ObjectMeta: metav1.ObjectMeta{Name: "n0"}}
+	r, stop := vtC10NewSuppress(&vtC10SI{topo: topo}, &vtC10MC{info: info})
+	defer close(stop)
+	out := []int64{}
+	for i := 0; i < n; i++ {
+		op, arg := d.next(), d.next()
+		switch op {
+		case 1:
+			r.adjustByCfsQuota(resource.NewMilliQuantity(arg, resource.DecimalSI), node)
+			r.suppressPolicyStatuses[string(slov1alpha1.CPUCfsQuotaPolicy)] = policyUsing
+		case 2:
+			r.recoverCFSQuotaIfNeed()
+		case 3:
+			helper.WriteCgroupFileContents(beDir, system.CPUCFSQuota, strconv.FormatInt(arg, 10))
+		default:
+			r.adjustByCPUSet(resource.NewMilliQuantity(arg, resource.DecimalSI), info)
+		}
+		v, err := strconv.ParseInt(strings.TrimSpace(helper.ReadCgroupFileContents(beDir, system.CPUCFSQuota)), 10, 64)
+		if err != nil {
+			v = -999999
+		}
+		out = append(out, v)
+	}
+	return out
+}
+
 func vtC10Exec(in []int64) []int64 {
 	d := &vtC10Rd{in: in}
 	switch d.next() {
@@ -372,6 +418,8 @@ func vtC10Exec(in []int64) []int64 {
 		return vtC10CPUSet(d)
 	case 4:
 		return vtC10Quota(d)
+	case 5:
+		return vtC10History(d)
 	}
 	return []int64{-1}
 }
@@ -737,16 +785,51 @@ func vtC10GenQuota(r *rand.Rand) (string, []int64) {
 	return "quota", []int64{4, budget, capM, cur}
 }
 
+// vtC10GenHistory draws up to six rounds on one plugin instance; budgets come from a pool of two
+// values so that the same quota is computed again after a recovery or an external reset.
+func vtC10GenHistory(r *rand.Rand) (string, []int64) {
+	capM := []int64{2000, 4000, 8000, 16000, 64000, 80000, 3500}[r.Intn(7)]
+	pool := []int64{r.Int63n(capM + 1), r.Int63n(capM + 1)}
+	if r.Intn(4) == 0 {
+		pool[1] = int64(r.Intn(30)) // at or below the minimum quota
+	}
+	init := int64(-1)
+	if r.Intn(3) == 0 {
+		init = r.Int63n(capM*100 + 1)
+	}
+	n := 2 + r.Intn(5)
+	in := []int64{5, capM, init, int64(n)}
+	for i := 0; i < n; i++ {
+		switch r.Intn(8) {
+		case 0, 1, 2, 3:
+			in = append(in, 1, pool[r.Intn(2)])
+		case 4, 5:
+			in = append(in, 2, 0)
+		case 6:
+			v := int64(-1)
+			if r.Intn(3) == 0 {
+				v = r.Int63n(capM*100 + 1)
+			}
+			in = append(in, 3, v)
+		default:
+			in = append(in, 4, int64(r.Intn(5000)))
+		}
+	}
+	return "quota-history", in
+}
+
 func vtC10Gen(r *rand.Rand, i int) (string, []int64) {
-	switch i % 8 {
+	switch i % 10 {
 	case 0, 1:
 		return vtC10GenBudget(r)
 	case 2, 3, 4:
 		return vtC10GenPick(r)
 	case 5, 6:
 		return vtC10GenCPUSet(r)
-	default:
+	case 7:
 		return vtC10GenQuota(r)
+	default:
+		return vtC10GenHistory(r)
 	}
 }
 
